@@ -19,8 +19,8 @@ import (
 // a deliberately non-thread-safe queue+stack provided by the harness (the wrapper alone must make it safe)
 type c08Slice struct{ items []int64 }
 
-func (s *c08Slice) Put(v int64) error   { return s.Offer(v) }
-func (s *c08Slice) Offer(v int64) error { s.items = append(s.items, v); return nil }
+func (s *c08Slice) Put(v int64) error    { return s.Offer(v) }
+func (s *c08Slice) Offer(v int64) error  { s.items = append(s.items, v); return nil }
 func (s *c08Slice) Take() (int64, error) { return s.Poll() }
 func (s *c08Slice) Poll() (int64, error) {
 	if len(s.items) == 0 {
@@ -260,7 +260,7 @@ func init() {
 		Meta: func(c *core.Ctx) core.Meta {
 			return core.Meta{
 				Level: "exploration",
-				Rule: "concurrent histories recorded at the client boundary (call before / return after, one monotonic clock, unique values = producer<<32|seq) against ConcurrentQueue and ConcurrentStack wrapping LinkedListQueue, ChannelQueue(3) (Offer/Poll) and a harness-provided non-thread-safe slice queue/stack; 1..16 producers x 1..16 consumers, PRNG yields; short histories (<= 40 ops, mixed roles) are checked for linearizability with porcupine against FIFO / LIFO / BoundedFIFO models after a single-threaded drain; long runs by the exactly-once / no-invention / per-producer-order checker; every call under recover; the same workload repeated in the -race build (deciding). distinct_nontrivial = distinct scenarios (workload seeds)",
+				Rule:  "concurrent histories recorded at the client boundary (call before / return after, one monotonic clock, unique values = producer<<32|seq) against ConcurrentQueue and ConcurrentStack wrapping LinkedListQueue, ChannelQueue(3) (Offer/Poll) and a harness-provided non-thread-safe slice queue/stack; 1..16 producers x 1..16 consumers, PRNG yields; short histories (<= 40 ops, mixed roles) are checked for linearizability with porcupine against FIFO / LIFO / BoundedFIFO models after a single-threaded drain; long runs by the exactly-once / no-invention / per-producer-order checker; every call under recover; the same workload repeated in the -race build (deciding). distinct_nontrivial = distinct scenarios (workload seeds)",
 				Assumptions: []string{"a race report inside the wrapped structure or the wrapper refutes the property (the baseline wrapper is expected to serialise every access)",
 					"ChannelQueue is wrapped through Offer/Poll only (its blocking Put/Take under the wrapper's lock are documented as blocking)"},
 			}
